@@ -40,7 +40,31 @@ def _py_req(case):
         if style == "tuple":
             return tuple(items)
         return items
-    return {gens.py_outcome(o): a for o, a in case["req"]}
+    d = {gens.py_outcome(o): a for o, a in case["req"]}
+    style = case.get("map_style", "dict")
+    if style == "H" and all(a >= 0 for a in d.values()):
+        from dyce import H
+        return H(d)                       # a hand dealt earlier is a Mapping of outcome -> amount too
+    if style == "proxy":
+        import types
+        return types.MappingProxyType(d)
+    if style == "userdict":
+        import collections
+        return collections.UserDict(d)
+    if style == "chainmap":
+        import collections
+        return collections.ChainMap(d)
+    if style == "counter":
+        import collections
+        c = collections.Counter()
+        c.update(d)
+        for k, v in d.items():
+            c[k] = v
+        return c
+    if style == "ordered":
+        import collections
+        return collections.OrderedDict(reversed(list(d.items())))
+    return d
 
 
 def gen_request(rng, h):
@@ -59,7 +83,8 @@ def gen_request(rng, h):
     for _ in range(rng.randint(0, 4)):
         o = pick()
         ks[Fraction(o[0], o[1])] = o
-    return {"form": form, "req": [[ks[k], rng.choice([-2, -1, 0, 1, 1, 2, 3])] for k in ks]}
+    return {"form": form, "req": [[ks[k], rng.choice([-2, -1, 0, 1, 1, 2, 3])] for k in ks],
+            "map_style": rng.choice(["dict", "dict", "H", "H", "proxy", "userdict", "chainmap", "counter", "ordered"])}
 
 
 def gen_cases(rng, tier):
